@@ -171,6 +171,7 @@ SessVals == [st : Stations, arr : 0..MaxArr, dur : 1..MaxDur, req : ReqSet, b : 
 AddSession(v) ==
     /\ pc = "Setup" /\ Len(sess) < MaxSess
     /\ v.b.cap = 0 \/ v.b.cap - v.b.init >= v.req
+    /\ v.req = 0 => v.b.cap # 0                 \* (a battery needs a positive capacity)
     /\ LET new == [st |-> v.st, arr |-> v.arr, dep |-> v.arr + v.dur, req |-> v.req,
                    cap |-> Cap(v), init |-> v.b.init, pw |-> v.b.pw]
        IN /\ Len(sess) > 0 => SKey(sess[Len(sess)]) < SKey(new)   \* canonical order
